@@ -63,7 +63,8 @@ RULE = ("Hypothesis-generated KINETICS/RATES problems. Closed-form families: zer
         "formulas of 1-2 neutral salts with coefficients. Each case reaches the same time T in 2-3 ways drawn from {single step, n equal "
         "steps, explicit list <= 20 steps} x {INCREMENTAL_REACTIONS true,false} x {-runge_kutta 1/2/3/6 with -step_divide/-bad_step_max, "
         "-cvode with -cvode_order 1-5 / -cvode_steps 20-20000 (restarts included) / -bad_step_max} x {batch, ADVECTION 1 cell, TRANSPORT 1 cell with flux or "
-        "constant boundaries (sub-mixes)}, each way in a fresh instance; the first two ways are always accuracy-bearing (Runge-Kutta, or "
+        "constant boundaries (sub-mixes), TRANSPORT column of 2-5 cells with forward or backward flow, flux or closed boundaries, no "
+        "dispersion/diffusion, the same reactant in every cell and every cell compared with the closed form (laws that release solutes only)}, each way in a fresh instance; the first two ways are always accuracy-bearing (Runge-Kutta, or "
         "CVODE order 5 with -cvode_steps >= 40, <= 2 chained integrations and tol >= 1e-10 of the largest amount), the third may lie in a "
         "known-finding class (CVODE order <= 4, -cvode_steps < 40, > 2 chained integrations (Runge-Kutta: > 20), tol < 1e-10 of the largest amount) where only "
         "the tolerance-free clauses are asserted. Library leg: phreeqc.dat RATES "
@@ -295,6 +296,10 @@ def cf_case(draw):
     hosts = ["batch", "batch", "batch", "advection", "transport_flux", "transport_const", "transport_multi", "transport_multi"]
     if fam == "approach_c":
         hosts = ["batch"]                # the closed form needs a closed cell
+    elif need:
+        # a law that takes solutes up (approach from below, growth of the chain daughter) depletes the water that moves on to the
+        # next cell: in a column the downstream cells would run out of solute (the engine then reduces the step for ever)
+        hosts = [h for h in hosts if h != "transport_multi"]
     case["ways"] = draw(ways(hosts, case["tol"], case_scale(case)))
     return case
 
